@@ -148,7 +148,15 @@ func zzH_C08_step() {
 	zzverif.Reach("pre")
 	id := s.Snapshot()
 	n := 2
-	switch zzverif.Choose("op", 5) {
+	removed := false
+	switch zzverif.Choose("op", 6) {
+	case 5: // remove the second validator (StateDB.RemoveValidator: exposed through vm.StateDB, no production caller)
+		if s.GetValidatorByMainAddr(zzValAddr(2)) == nil || len(s.GetValidatorByMainAddr(zzValAddr(2)).Delegations) > 0 {
+			zzverif.Assume(false)
+		}
+		s.RemoveValidator(zzValAddr(2))
+		removed = true
+		zzverif.Reach("removed")
 	case 4: // in-place update, as teDelegationSub / recoverFromExpiredExpelling / rewardsToPool do:
 		// the live record is modified and passed as newVal together with a pre-modification copy
 		cur := s.GetValidatorByMainAddr(zzValAddr(1))
@@ -204,7 +212,8 @@ func zzH_C08_step() {
 		zzverif.Reach("delegated2")
 	}
 	zzverif.Assert(zzC08Consistent(s, n), "statistics equal the recomputation from the validator records")
-	zzverif.Assert(zzC08Index(s, n), "the address index lists exactly the live validators")
+	// known finding: RemoveValidator leaves the removed validator in the address index until the next flush
+	zzverif.AssertKF(zzC08Index(s, n), "the address index lists exactly the live validators", "C08-removevalidator-keeps-index-entry", removed)
 	zzverif.Assert(zzC08Links(s, n, d), "validator totals = self + delegations, stake = token / unit, both sides agree on delegations")
 	if zzverif.Bool("revert") {
 		s.RevertToSnapshot(id)
